@@ -179,6 +179,9 @@ func (fe *FnExec) unknownCall(fr *frame, st *State, key string, cc *ssa.CallComm
 	}
 	fe.lastCallRule(fr, st, full)
 	fe.reestablishArgs(st, full, fe.curArgTypes)
+	hwPost := fe.fresh("hw", "Int")
+	fe.assume(sx("<=", fe.hw, hwPost), "allocation watermark after the call")
+	fe.hw = hwPost
 	if rt == nil {
 		return TupleV{}
 	}
@@ -362,7 +365,12 @@ func (fe *FnExec) applyContract(fr *frame, st *State, in ssa.Instruction, site s
 	} else {
 		rvs = []Val{res}
 	}
+	hwPre := fe.hw
+	hwPost := fe.fresh("hw", "Int")
+	fe.assume(sx("<=", hwPre, hwPost), "allocation watermark after the call")
+	fe.hw = hwPost
 	post := mk(st, pre)
+	post.hwPre, post.hwPost = hwPre, hwPost
 	post.bindResults(sig, rvs)
 	// let-bound names of the callee become fresh unknowns for the caller
 	for _, l := range con.Lets {
